@@ -92,7 +92,8 @@ def main(argv=()):
             log.error("Cannot use catalog")
             return 1
         log.debug("Regrouping with eps={0}[arcmin]".format(options.eps))
-        eps = np.sin(np.radians(options.eps/60))
+        # dbscan measures the chord between unit vectors
+        eps = 2*np.sin(np.radians(options.eps/60)/2)
         groups = regroup_dbscan(sources, eps=eps)
         sources = [source for group in groups for source in group]
         log.debug("{0} sources regrouped".format(len(sources)))
